@@ -2501,7 +2501,7 @@ def isinstance_model(I, st, v, cls):
                 return False  # a view is none of these
             raise Unsupported("isinstance of a dictionary view")
         # a frozenset is not a set and a set is not a frozenset (neither class derives from the other)
-        kind = {"list": ("list",), "deque": ("deque",), "dict": ("dict",), "set": (("frozenset",) if getattr(e, "frozen", False) else ("set",)),
+        kind = {"list": ("list",), "deque": ("deque",), "dict": ("dict",), "set": (("frozenset",) if (e.kind == "set" and e.frozen) else ("set",)),
                 "nd": ("ndarray",), "numset": ("set",), "symlist": ("list",)}[e.kind]
         return isinstance(cls, BuiltinClass) and (cls.name in kind or cls.name == "object")
     if isinstance(v, HObj):
